@@ -8,7 +8,8 @@ CONSTANTS Slots,      \* token slots the driver keeps
           SMRoles,    \* roles tokens are issued for
           SMKeys,     \* node keys (1 = this node)
           SMDamage,   \* damage classes applied by Tamper
-          SMJunk      \* junk classes
+          SMJunk,     \* junk classes
+          SMDurs      \* expiry durations used when issuing / refreshing ("pos", "neg", "short")
 
 Self == 1
 
@@ -21,7 +22,7 @@ SMInit == slots = [s \in Slots |-> None] /\ last = [op |-> "init"]
 
 \* GenerateKey(role, duration) on node `key`
 GenTok(s, key, role, dur) ==
-  /\ slots' = [slots EXCEPT ![s] = Seal(key, role, ExpOf(dur))]
+  /\ slots' = [slots EXCEPT ![s] = Issue(key, role, dur)]
   /\ last' = [op |-> "gen", slot |-> s, key |-> key, role |-> role, dur |-> dur]
 
 \* RefreshKey(slots[src], duration) on this node; the result (if any) goes to dst
@@ -30,6 +31,12 @@ RefreshTok(src, dst, dur) ==
   /\ LET out == RefreshOutcome(Self, slots[src])
      IN /\ slots' = IF out = "ok" THEN [slots EXCEPT ![dst] = Refreshed(slots[src], dur)] ELSE slots
         /\ last' = [op |-> "refresh", src |-> src, dst |-> dst, dur |-> dur, out |-> out]
+
+\* the clock moves past every short expiry
+WaitTok ==
+  /\ "short" \in SMDurs
+  /\ slots' = [s \in Slots |-> Expire(slots[s])]
+  /\ last' = [op |-> "wait"]
 
 \* damage a stored token string
 TamperTok(s, cls) ==
@@ -50,8 +57,9 @@ EnforceTok(s, path, method) ==
 
 \* the operations that change the slots
 SMChange ==
-  \/ \E s \in Slots, k \in SMKeys, r \in SMRoles, d \in {"pos", "neg"} : GenTok(s, k, r, d)
-  \/ \E a, b \in Slots, d \in {"pos", "neg"} : RefreshTok(a, b, d)
+  \/ \E s \in Slots, k \in SMKeys, r \in SMRoles, d \in SMDurs : GenTok(s, k, r, d)
+  \/ \E a, b \in Slots, d \in SMDurs : RefreshTok(a, b, d)
+  \/ WaitTok
   \/ \E s \in Slots, c \in SMDamage : TamperTok(s, c)
   \/ \E s \in Slots, c \in SMJunk : JunkTok(s, c)
 
